@@ -470,6 +470,15 @@ def fetch (store : List Recording) (id : Nat) : Option Recording :=
   | [] => none
   | r :: rest => if r.id = id then some r else fetch rest id
 
+/-- `Recording._closed` (recording.py): set by `abort_recording`, and by a `save_recording` whose storage step succeeded
+(`TapeCassette.save_recording` closes the recording after `_save_recording`; a save that raises leaves it open) -/
+def isClosed (s : St) (id : Nat) : Bool := s.log.contains (.abort id) || (fetch s.store id).isSome
+
+/-- `Recording.set_data` / `add_metadata` on the recording object `id` after the fact: a closed recording rejects the
+write (`assert not self._closed`) -/
+def lateWrite (s : St) (id : Nat) : Except String Unit :=
+  if isClosed s id then .error "AssertionError" else .ok ()
+
 inductive PlayResult where
   | played (playbackOutputs recordedOutputs : Data)     -- a `Playback` object
   | raised (t : String)                                 -- exception out of `play()`
